@@ -558,3 +558,25 @@ PROPS["C03"] = dict(
             Stage("c03", pkg="mon_stark", variant="chk", kind="sharded", n=(160, 3000), timeout=(900, 7200)),
             Stage("c09", pkg="mon_leaf", variant="rel", kind="sharded", n=(480, 12000), timeout=(900, 7200))],
 )
+
+PROPS["C04"] = dict(
+    level="fault_enumeration",
+    rule="per honest GenAir proof (5 field/hasher pairs, all 3 extensions, main-only and auxiliary, partitions, grinding; 1-3 KB): "
+         "every bit of the first 64 bytes (context), of the first 3 bytes of each component and of the last 12 bytes plus 1200 "
+         "(thorough 6000; every third proof EVERY bit) random bit flips; byte substitutions {0,1,7f,80,ff}; truncation at "
+         "every offset; trailing bytes; one byte inserted / deleted at and just inside every component boundary; field-level "
+         "edits with consistent length prefixes (metadata zeros appended / last byte dropped / bit flipped / added, 6 "
+         "partition settings, constraint count, unique-query count, nonce, an unused node appended to an opening, swapped node "
+         "vectors, FRI partition exponent); each mutated string: decode error, or rejected under OptionSet([original "
+         "options]) AND under MinConjecturedSecurity(0), or its parsed contents (context, unique-query count, commitment "
+         "digests, query values and openings, OOD frame, FRI layer values / openings / remainder, nonce) equal the "
+         "original's; evaluation = one mutated string; distinct = proofs",
+    assumptions=["nonce edits are applied only to proofs with grinding >= 1 or log2(LDE size) * unique queries >= 40, so a "
+                 "different nonce yielding the same position set is not a chance event; others are counted skipped_inherent",
+                 "the FRI partition count is not among the parsed contents the property lists and is inert when a proof has no "
+                 "FRI layers; it is not compared",
+                 "panics while decoding / verifying a mutated string count as 'not accepted' here and are C05's subject"],
+    floor=8,
+    stages=[Stage("c04", pkg="mon_stark", variant="rel", kind="sharded", n=(32, 400), shard=1, timeout=(900, 7200)),
+            Stage("c04", pkg="mon_stark", variant="chk", kind="sharded", n=(10, 60), shard=1, timeout=(900, 7200), args=["--budget", "300"])],
+)
